@@ -12,7 +12,7 @@ import (
 	"verif/mon"
 )
 
-var cacheKindNames = []string{"LRU", "FIFO", "Random", "Stats(LRU)", "Stats(FIFO)", "Stats(Random)", "LRU(>file)"}
+var cacheKindNames = []string{"LRU", "FIFO", "Random", "Stats(LRU)", "Stats(FIFO)", "Stats(Random)", "LRU(>file)", "none(detach)"}
 
 // mkCache builds one of the provided caches.
 func mkCache(kind, capacity, nblocks int) bgzf.Cache {
@@ -29,6 +29,8 @@ func mkCache(kind, capacity, nblocks int) bgzf.Cache {
 		return &cache.StatsRecorder{Cache: cache.NewFIFO(capacity)}
 	case 5:
 		return &cache.StatsRecorder{Cache: cache.NewRandom(capacity)}
+	case 7:
+		return nil // detach the cache
 	}
 	return cache.NewLRU(nblocks + 2)
 }
